@@ -97,6 +97,17 @@ def cross_read():
                 if n.exc.args and isinstance(n.exc.args[0], ast.Constant) and "blocking function" in str(n.exc.args[0].value):
                     confirmed = True
     facts["trio.from_thread.run raises bare RuntimeError when called in the trio thread"] = confirmed
+    # --- leaving a `with` block on a trio memory channel closes that end
+    tree = _parse(os.path.join(sp, "trio/_channel.py")) if sp else None
+    confirmed = None
+    if tree is not None:
+        confirmed = False
+        for n in tree.body:
+            if isinstance(n, ast.ClassDef) and n.name == "MemorySendChannel":
+                for m in n.body:
+                    if isinstance(m, ast.FunctionDef) and m.name == "__exit__":
+                        confirmed = any(isinstance(c, ast.Call) and isinstance(c.func, ast.Attribute) and c.func.attr == "close" for c in ast.walk(m))
+    facts["trio.MemorySendChannel.__exit__ closes the channel"] = confirmed
     # --- yaml loaders
     tree = _parse(os.path.join(sp, "yaml/loader.py")) if sp else None
     confirmed = None
